@@ -196,6 +196,15 @@ func (ip *Interp) solveWith(c *sym.Term, allowEnum bool) (bool, map[string]uint6
 			return false, nil // side not explored; the run is flagged inconclusive
 		}
 		if res != solver.Sat {
+			// an unsat answer prunes a branch: have the second solver confirm it
+			if ip.Sol2 != nil && ip.Stats.XChecked < ip.XCheckBudget {
+				r2, _, err2 := ip.Sol2.Check(q, false)
+				ip.Stats.XChecked++
+				if err2 != nil || r2 != solver.Unsat {
+					ip.Stats.XDisagree++
+					ip.inconcl = append(ip.inconcl, fmt.Sprintf("cross-check: %s did not confirm an unsat answer (%v %v)", ip.Sol2.Name, r2, err2))
+				}
+			}
 			return false, nil
 		}
 		for k, v := range m {
